@@ -29,6 +29,9 @@ type Explorer2 struct {
 	OnExec      func(sc *Scenario, x *Exec, outcome string, f []Finding)
 	Stats       Stats
 	MaxExecs    int64
+	// SkippedSubtrees counts prefixes that still diverged after the retries of
+	// runChecked (Stats.Divergences counts every diverged attempt).
+	SkippedSubtrees int64
 }
 
 // Cost reports the (preemptions, switches, deviations) of an execution under
@@ -85,6 +88,7 @@ func (e *Explorer2) explore(sc *Scenario, prefix []int, expect []string, depth i
 	x, outcome, fs := inner.runChecked(sc, prefix, expect)
 	e.Stats.Divergences += inner.Stats.Divergences
 	if x.Diverged != "" {
+		e.SkippedSubtrees++
 		return
 	}
 	count := depth >= e.ShardAt || e.Shard == 0
